@@ -42,11 +42,16 @@ ASSUMPTIONS = [
     'with --clear the stack pointer is "left alone": the check requires RAMTOP == CLEAR and SP within the 64 bytes below CLEAR, not an '
     'exact value',
     'the loading screen is not part of the statement: whether the display file equals the screen file is counted, not judged',
+    'two consequences of a correct BASIC loader are judged although the statement does not spell them out, because the design lists the '
+    'BASIC line length among the breaks to catch and RANDOMIZE USR never reaches the end of the line: (a) on --clear tapes the lines of the '
+    'loaded BASIC program tile PROG..VARS exactly; (b) the documented purpose of --clear - a program that returns to BASIC does so without '
+    'crashing: with a RET at START the 48K simulated LOAD, run on to the ROM report handler (0x1303), shows report 0 OK for line 10',
     'Python-simulator runs without fast loading are confined to tapes of at most 900 bytes (cost), C-simulator runs cover all sizes',
 ]
 MIN_NONTRIVIAL = {'quick': 250, 'thorough': 6000}
 N_CASES = {'quick': 480, 'thorough': 16000}
 SLOW_PY_BYTES = 900
+MAX_ALARMS_PER_SHARD = 6
 
 FINDING_PREFILL = 'C12-stack-prefill-skipped-when-stack-starts-below-data'
 
@@ -132,6 +137,28 @@ def _merge(ranges):
         else:
             out.append((lo, hi, r))
     return out
+
+def basic_program_problem(mem):
+    """Walk the BASIC program area of the snapshot: every line is (number hi, number lo, length lo, length hi, text) and the lines
+    must end exactly at VARS. Only called when the data cannot have overwritten the BASIC area (--clear tapes)."""
+    w = lambda a: mem.peek(a) + 256 * mem.peek(a + 1)
+    prog, vars_ = w(23635), w(23627)
+    if not 23755 <= prog < vars_ <= 24300:
+        return 'BASIC area of the snapshot is implausible: PROG=%d VARS=%d' % (prog, vars_)
+    a = prog
+    lines = 0
+    while a < vars_:
+        if a + 4 > vars_:
+            return 'BASIC loader: %d stray bytes after the last line (PROG=%d VARS=%d)' % (vars_ - a, prog, vars_)
+        length = w(a + 2)
+        if a + 4 + length > vars_:
+            return ('BASIC loader line %d declares a length of %d but only %d bytes remain before VARS (PROG=%d VARS=%d)'
+                    % (256 * mem.peek(a) + mem.peek(a + 1), length, vars_ - a - 4, prog, vars_))
+        if mem.peek(a + 4 + length - 1) != 13:
+            return 'BASIC loader line %d does not end with ENTER at its declared length %d' % (256 * mem.peek(a) + mem.peek(a + 1), length)
+        a += 4 + length
+        lines += 1
+    return None
 
 def classify(spec, problems):
     """Mechanism predicates for defects known on the unchanged tree. Returns a finding id or None."""
@@ -234,6 +261,36 @@ def check_case(shard, spec, cfg, tag=''):
         if spec['scr'] is not None and not problems:
             scr_now = mem.slice(16384, G.SCR_LEN)
             shard.hist('screen', 'equals the screen file' if scr_now == spec['scr'] else 'differs (data/loader/stack lie in the display file or text was printed)')
+        # ---- the BASIC loader bin2tap wrote must be a well-formed program: its lines tile PROG..VARS exactly
+        if spec['clear'] is not None and not problems:
+            bp = basic_program_problem(mem)
+            shard.inc('observed:basic_loader_structure_checked')
+            if bp:
+                problems.append(bp)
+        # ---- documented use of --clear: a program that returns to BASIC ends line 10 with report 0 OK
+        if spec.get('ret_probe') and cfg['machine'] == 48 and not problems and not (cfg['python'] and not cfg['fast_load']):
+            t2p = G.tap2sna_argv(spec, cfg, tape, sna, stop_at=G.MAIN_4)
+            os.unlink(sna)
+            r3 = harness.run_tool('tap2sna', t2p)
+            shard.inc('events:tap2sna_runs')
+            ctx += ' ; tap2sna ' + ' '.join(t2p)
+            if not r3.ok or not os.path.isfile(sna):
+                problems.append('tap2sna failed when run until the program returns to BASIC: %s' % r3.describe())
+            else:
+                try:
+                    m2 = Mem(read_snapshot(sna))
+                except (c09_z80fmt.FormatError, c09_szxfmt.FormatError) as e:
+                    m2 = None
+                    problems.append('snapshot written by tap2sna is not well formed: %s' % e)
+                if m2:
+                    shard.inc('observed:return_to_basic_checked')
+                    err_nr, ppc = m2.peek(23610), m2.peek(23621) + 256 * m2.peek(23622)
+                    if m2.snap['pc'] != G.MAIN_4 or err_nr != 255 or ppc != 10:
+                        problems.append('a program consisting of RET at START did not return to BASIC with report "0 OK" in line 10: '
+                                        'PC=%d (report handler at %d), ERR_NR=%d (255 = OK), PPC=%d' % (m2.snap['pc'], G.MAIN_4, err_nr, ppc))
+                    n2, bad2, total2 = compare_main(m2, addr, data, exp['excluded'])
+                    if total2:
+                        problems.append('after returning to BASIC %d bytes of the main block differ: %s' % (total2, bad2))
     if problems:
         fid = classify(spec, problems)
         what = '%s\n  %s\n  spec: %s\n  tap2sna said: %s' % ('; '.join(problems), ctx, G.describe(spec), ' | '.join(out.strip().splitlines()[-4:]))
@@ -353,6 +410,9 @@ def run(shard, spec):
         if shard.out_of_time():
             shard.inc('stopped_on_budget')
             break
+        if sum(1 for v in shard.violations if v.get('finding') is None) >= MAX_ALARMS_PER_SHARD:
+            shard.inc('stopped_after_%d_violations' % MAX_ALARMS_PER_SHARD)   # the verdict is settled; keep the replay directory small
+            break
 
 def finalize(agg, tier):
     c = agg['counters']
@@ -370,6 +430,8 @@ def finalize(agg, tier):
     need('observed:loads_completed_python_slow')
     need('observed:data_inside_the_14_stack_bytes')
     need('observed:bank_loader_over_main_block')
+    need('observed:basic_loader_structure_checked')
+    need('observed:return_to_basic_checked')
     for hist, keys in (('kind', ('48stack', '48clear', '128')), ('tape_format', ('tap', 'pzx')), ('cfg_fast_load', ('0', '1')),
                        ('screen_option', ('yes', 'no')), ('last_four_stack_bytes_vs_data', ('inside', 'tail', 'head', 'none')),
                        ('cfg_machine', ('48', '128')), ('snapshot_format', ('z80', 'szx')), ('cfg_pause', ('0', '1'))):
